@@ -508,6 +508,26 @@ def run_batch(ctx, *, tag, scripts, pkg_rel, pkgname, files, test, trace_module,
     return events
 
 
+UNIV_PKG_KINDS = {"pkg/gcc": {"cc", "ccleaky"}, "pkg/cc": {"cc", "ccleaky"}, "internal/cc": {"cc", "ccleaky"}, "pkg/pacing": {"pacing"},
+                  "pkg/nack": {"nackgen", "nackresp"}, "internal/rtpbuffer": {"nackresp"}, "pkg/packetdump": {"pdrecv", "pdsend"},
+                  "pkg/twcc": {"twccsend", "twcchdr"}, "pkg/rfc8888": {"rfc8888"}, "pkg/report": {"rrecv", "rsend"},
+                  "pkg/stats": {"stats"}, "pkg/intervalpli": {"pli"}, "pkg/flexfec": {"flexfec"}, "pkg/jitterbuffer": {"jitter"},
+                  "pkg/rtpfb": {"rtpfb"}}
+
+
+def univ_culprit_hint(done, out):
+    """Universal-harness scripts: a crash or race in a background goroutine is blamed on the latest executed script that
+    contains a member of the package named in the report."""
+    i = max(out.find("panic:"), out.find("WARNING: DATA RACE"))
+    tail = out[i:i + 4000] if i >= 0 else out[-4000:]
+    for pkg, kinds in UNIV_PKG_KINDS.items():
+        if "github.com/pion/interceptor/" + pkg in tail:
+            for sc in reversed(done):
+                if kinds & {m["k"] for m in sc["members"]}:
+                    return sc
+    return None
+
+
 def replay_scripts(path):
     rep = json.load(open(path))
     if rep.get("script"):
